@@ -29,6 +29,8 @@ type BlockHeaderSubscriber interface {
 type liquidBlockHeaderSubscriber struct {
 	txObservers []TXObserver
 	mu          sync.Mutex
+	// updateMu serializes Update, see there.
+	updateMu sync.Mutex
 }
 
 func NewLiquidBlockHeaderSubscriber() *liquidBlockHeaderSubscriber {
@@ -54,14 +56,25 @@ func (h *liquidBlockHeaderSubscriber) Deregister(o TXObserver) {
 }
 
 func (h *liquidBlockHeaderSubscriber) Update(ctx context.Context, blockHeight BlockHeight) error {
+	// The callbacks take the lock of their swap, and a swap registers its
+	// observers while it holds that lock: do not call back with mu held. One
+	// update at a time keeps every observer from being called twice.
+	h.updateMu.Lock()
+	defer h.updateMu.Unlock()
+
 	h.mu.Lock()
-	defer h.mu.Unlock()
-	for _, observer := range h.txObservers {
+	observers := make([]TXObserver, len(h.txObservers))
+	copy(observers, h.txObservers)
+	h.mu.Unlock()
+
+	for _, observer := range observers {
 		callbacked, err := observer.Callback(ctx, blockHeight)
 		if callbacked {
 			if err == nil || errors.Is(err, swap.ErrSwapDoesNotExist) {
 				// callbacked and no error, remove observer
+				h.mu.Lock()
 				h.Deregister(observer)
+				h.mu.Unlock()
 			}
 		}
 		if err != nil && !errors.Is(err, swap.ErrSwapDoesNotExist) {
